@@ -1,11 +1,11 @@
 package main
 
 import (
-	"path/filepath"
 	"bytes"
 	"fmt"
 	"math/rand"
 	"os"
+	"path/filepath"
 	"regexp"
 	"regexp/syntax"
 	"strings"
